@@ -175,8 +175,10 @@ def frame(body: bytes, framing: str, chunk: int) -> tuple[bytes, bytes]:
     return b"", body
 
 
-def wire_coding(coding: str) -> str:
-    return "deflate" if coding == "rawdeflate" else coding
+def wire_coding(coding: str, spelling: int = 0) -> str:
+    name = "deflate" if coding == "rawdeflate" else coding
+    # content-coding names are case-insensitive (RFC 9110 8.4.1)
+    return [name, name.upper(), name.capitalize()][spelling % 3]
 
 
 def execute(case: dict) -> dict:
@@ -211,7 +213,7 @@ def execute(case: dict) -> dict:
         seg = max(plan) if plan else len(wire_body) + 512
         # high water (2L) + one decompress call (L) + whatever one wire segment carries undecoded
         bound = 4 * L + 2048 + slack + seg
-        ce = b"" if coding == "identity" else f"Content-Encoding: {wire_coding(coding)}\r\n".encode()
+        ce = b"" if coding == "identity" else f"Content-Encoding: {wire_coding(coding, case.get('spelling', 0))}\r\n".encode()
         consumed = [0]
         result: dict = {}
 
@@ -431,7 +433,7 @@ def cases(draw, side: str):
     framing = draw(st.sampled_from(["cl", "chunked", "chunked", "eof"] if side == "client" else ["cl", "chunked"]))
     limit = draw(st.sampled_from([1, 16, 1024, 65536, 2 ** 18]))
     case = {
-        "side": side, "shape": shape, "size": size, "k": draw(st.integers(0, 3)), "coding": coding, "framing": framing,
+        "side": side, "shape": shape, "size": size, "k": draw(st.integers(0, 3)), "coding": coding, "spelling": draw(st.sampled_from([0, 0, 0, 1, 2])), "framing": framing,
         "chunk": draw(st.sampled_from([1, 7, 100, 1000, 8192])), "limit": limit,
         "mode": draw(st.sampled_from(["read", "read", "readany", "iter"])),
         "reads": draw(st.lists(st.sampled_from([1, 5, 100, 4096, 70000, -1]), min_size=1, max_size=3)),
